@@ -307,6 +307,28 @@ def r5_visit(run, F):
     run.require(n >= 6, "too few visit obligations (%d)" % n)
 
 
+def r6_pass_order(run, F):
+    """The syntax analyzer lets a poisoned statement pass as a naked branch (it has been reported already).  So it must see
+    the statements before the passes that poison for other reasons (wrong calls: E510-E513, immutable targets: E530),
+    or E840 is lost for exactly those statements."""
+    b = F.body("alpha::analyzer::Analyzer::analyze")
+    seq = []
+    for c in hirq.calls(b["hir"]):
+        cn = hirq.callee(c) or ""
+        if cn.startswith("alpha::analyzer::") and cn.endswith("::analyze"):
+            seq.append((c["l"], cn.split("::")[-2]))
+    # data flow order: each pass consumes the result of the previous one (let x = pass(x))
+    order = [nm for _, nm in sorted(seq)]
+    ok = "syntax" in order and all(order.index("syntax") < order.index(x) for x in ("function_calls", "mutability") if x in order) and \
+        "function_calls" in order and "mutability" in order
+    run.ob("R6-ANALYZER-ORDER", "Analyzer::analyze", ok, F.where(b),
+           "syntax::analyze must run before function_calls::analyze and mutability::analyze: order %s" % order, sample={"order": order})
+    # and the chain is a chain: every pass takes the previous result
+    lets = [n for n in walk(b["hir"]) if n.get("k") == "Let" and "init" in n]
+    chained = all(any(x.get("k") == "Path" and x.get("rk") == "Local" for x in walk(n["init"])) for n in lets)
+    run.ob("R6-ANALYZER-ORDER", "chained", chained and len(seq) == 4, F.where(b), "four analyzer passes, each fed with the previous result (%d found)" % len(seq))
+
+
 def check(run):
     F = run.facts("B")
     r1_emission(run, F)
@@ -315,3 +337,4 @@ def check(run):
     r3b_lint_typestate(run, F)
     r4_generator(run, F)
     r5_visit(run, F)
+    r6_pass_order(run, F)
